@@ -55,24 +55,26 @@ T('C01', 'twin-remove-ge', TRACK, "            if self.__analyticalFeaturesDico[
 T('C01', 'twin-shift-assign', TRACK, "                self.__analyticalFeaturesDico[k] -= 1", "                self.__analyticalFeaturesDico[k] = self.__analyticalFeaturesDico[k] - 1")
 
 # ---------------------------------------------------------------- C02
-M('C02', 'rpn-left-to-right', UT, "        for p in range(len(s) - 1, -1, -1):", "        for p in range(0, len(s)):", 'C02.P')
-M('C02', 'sr-minus-wrong-class', OPS, '        "sr-": SCALAR_REV_SUBSTRACTER,', '        "sr-": SCALAR_SUBSTRACTER,', 'C02.S')
-M('C02', 'scalar-sub-swapped', OPS, "            temp[i] = number - track.getObsAnalyticalFeature(af_input, i)", "            temp[i] = track.getObsAnalyticalFeature(af_input, i) - number", 'C02.S')
-M('C02', 'scalar-scalar-div-mul', TRACK, "            if operator == \"/\":\n                return op1 / op2", "            if operator == \"/\":\n                return op1 * op2", 'C02.S')
+M('C02', 'rpn-left-to-right', UT, "        for p in range(len(s) - 1, -1, -1):", "        for p in range(0, len(s)):", 'C02.G')
+M('C02', 'sr-minus-wrong-class', OPS, '        "sr-": SCALAR_REV_SUBSTRACTER,', '        "sr-": SCALAR_SUBSTRACTER,', 'C02.G')
+M('C02', 'scalar-sub-swapped', OPS, "            temp[i] = number - track.getObsAnalyticalFeature(af_input, i)", "            temp[i] = track.getObsAnalyticalFeature(af_input, i) - number", 'C02.G')
+M('C02', 'scalar-scalar-div-mul', TRACK, "            if operator == \"/\":\n                return op1 / op2", "            if operator == \"/\":\n                return op1 * op2", 'C02.G')
 M('C02', 'differentiator-forward', OPS,
   "        for i in range(1, track.size()):\n            temp[i] = track.getObsAnalyticalFeature(\n                af_input, i\n            ) - track.getObsAnalyticalFeature(af_input, i - 1)\n        temp[0] = NAN\n        addListToAF(track, af_output, temp)\n        return temp\n\n\nclass ForwardFiniteDiff",
-  "        for i in range(1, track.size()):\n            temp[i] = track.getObsAnalyticalFeature(\n                af_input, i - 1\n            ) - track.getObsAnalyticalFeature(af_input, i)\n        temp[0] = NAN\n        addListToAF(track, af_output, temp)\n        return temp\n\n\nclass ForwardFiniteDiff", 'C02.T')
-M('C02', 'd2-coefficient', OPS, "            temp[i] -= 2 * track.getObsAnalyticalFeature(af_input, i)", "            temp[i] -= track.getObsAnalyticalFeature(af_input, i)", 'C02.T')
-M('C02', 'diode-nonstrict-sign', OPS, "        f = lambda x: x * (x > 0)", "        f = lambda x: x * (x < 0)", 'C02.T')
+  "        for i in range(1, track.size()):\n            temp[i] = track.getObsAnalyticalFeature(\n                af_input, i - 1\n            ) - track.getObsAnalyticalFeature(af_input, i)\n        temp[0] = NAN\n        addListToAF(track, af_output, temp)\n        return temp\n\n\nclass ForwardFiniteDiff", 'C02.G')
+M('C02', 'd2-coefficient', OPS, "            temp[i] -= 2 * track.getObsAnalyticalFeature(af_input, i)", "            temp[i] -= track.getObsAnalyticalFeature(af_input, i)", 'C02.G')
+M('C02', 'diode-nonstrict-sign', OPS, "        f = lambda x: x * (x > 0)", "        f = lambda x: x * (x < 0)", 'C02.G')
 M('C02', 'avg-count-all', OPS, "            if isnan(val):\n                continue\n            count += 1\n            mean += track.getObsAnalyticalFeature(af_input, i)\n        return mean / count",
-  "            count += 1\n            if isnan(val):\n                continue\n            mean += track.getObsAnalyticalFeature(af_input, i)\n        return mean / count", 'C02.T')
+  "            count += 1\n            if isnan(val):\n                continue\n            mean += track.getObsAnalyticalFeature(af_input, i)\n        return mean / count", 'C02.G')
 M('C02', 'argmin-index-stale', OPS, "            if val < minimum:\n                minimum = val\n                idmin = i\n        return idmin",
-  "            if val < minimum:\n                minimum = val\n            idmin = i\n        return idmin", 'C02.T')
-M('C02', 'max-nonstrict-wrong-dir', OPS, "            if val > maximum:\n                maximum = val\n        return maximum", "            if val < maximum:\n                maximum = val\n        return maximum", 'C02.T')
+  "            if val < minimum:\n                minimum = val\n            idmin = i\n        return idmin", 'C02.G')
+M('C02', 'max-nonstrict-wrong-dir', OPS, "            if val > maximum:\n                maximum = val\n        return maximum", "            if val < maximum:\n                maximum = val\n        return maximum", 'C02.G')
 M('C02', 'operate-swapped-args', TRACK, "                return operator.execute(self, arg1, arg2, arg3)\n            if len(arg1) != len(arg2):\n                raise OperatorError(\n                    \"Error in \"\n                    + type(operator).__name__\n                    + \": non-concordant number in input features\"",
-  "                return operator.execute(self, arg2, arg1, arg3)\n            if len(arg1) != len(arg2):\n                raise OperatorError(\n                    \"Error in \"\n                    + type(operator).__name__\n                    + \": non-concordant number in input features\"", 'C02.O')
-M('C02', 'output-not-removed', TRACK, "            output = self.getAnalyticalFeature(\"#output\")\n            self.removeAnalyticalFeature(\"#output\")\n            return output",
-  "            output = self.getAnalyticalFeature(\"#output\")\n            return output", 'C02.N')
+  "                return operator.execute(self, arg2, arg1, arg3)\n            if len(arg1) != len(arg2):\n                raise OperatorError(\n                    \"Error in \"\n                    + type(operator).__name__\n                    + \": non-concordant number in input features\"", 'C02.G')
+# (not a defect: operate() removes every '#'-prefixed feature after the evaluation, '#output' included - the former structural rule C02.N
+#  demanded the inner removal and would have raised a false alarm on this behaviour-preserving edit)
+T('C02', 'twin-output-left-to-operate', TRACK, "            output = self.getAnalyticalFeature(\"#output\")\n            self.removeAnalyticalFeature(\"#output\")\n            return output",
+  "            output = self.getAnalyticalFeature(\"#output\")\n            return output")
 T('C02', 'twin-adder-commute', OPS,
   "            temp[i] = track.getObsAnalyticalFeature(\n                af_input1, i\n            ) + track.getObsAnalyticalFeature(af_input2, i)",
   "            right = track.getObsAnalyticalFeature(af_input2, i)\n            temp[i] = right + track.getObsAnalyticalFeature(af_input1, i)")
